@@ -438,12 +438,13 @@ def linearize(actions, init, final_ok=None, tolerate=True, wild=(), max_nodes=20
     """Search an order of `actions` that respects real-time precedence, explains every observed result by the
     reference `init` (a Ref* object) and ends in a state accepted by final_ok(state).
     tolerate: allow the property's one anomaly (a lookup overlapping another client's write of the same key misses).
-    wild: operation names whose results are not compared (used only to classify a failure).
+    wild: operation names (or a predicate on calls) whose results are not compared (used only to classify a failure).
     Returns (order as list of action ids, number of anomalies used) or None."""
     n = len(actions)
     idx = {a.aid: a for a in actions}
     preds = {a.aid: set(b.aid for b in actions if b is not a and b.last < a.first) for a in actions}
     unordered = getattr(init, 'unordered', False)
+    is_wild = wild if callable(wild) else (lambda c: c['op'] in wild)
     memo = set()
     nodes = [0]
 
@@ -464,7 +465,7 @@ def linearize(actions, init, final_ok=None, tolerate=True, wild=(), max_nodes=20
             if obs == ('exc', 'Timeout'):
                 continue            # no effect; contention is checked separately
             r = ref_result(s2, call)
-            if call['op'] in wild:
+            if is_wild(call):
                 continue
             if r[0] == obs[0] and (same(r[1], obs[1], unordered) if r[0] == 'ok' else r[1] == obs[1]):
                 continue
@@ -520,9 +521,12 @@ def actions_of_calls(calls):
     return acts
 
 
-def final_matches(kind, snap):
-    """Predicate on the reference's final state: equals the observed final contents (api_snapshot)."""
+def final_matches(kind, snap, ignore_values=()):
+    """Predicate on the reference's final state: equals the observed final contents (api_snapshot).
+    ignore_values: keys whose value / visibility is not compared (used only to classify a failure)."""
     obs = snap['items']
+    if kind == 'deque':
+        obs = sorted(obs, key=lambda x: x[0])
 
     def ok(st):
         if kind in ('cache', 'fanout'):
@@ -531,15 +535,19 @@ def final_matches(kind, snap):
                 return False
             pairs = zip(view, obs) if kind == 'cache' else zip(sorted(view, key=repr), sorted(obs, key=repr))
             for (k, vis, v, e, t), (ok_, present, ov, oe, ot, _filed) in pairs:
-                if k != ok_ or vis != present or e != oe or t != ot:
+                if k != ok_ or e != oe or t != ot:
                     return False
-                if vis and not same(v, ov):
+                if k in ignore_values:
+                    continue
+                if vis != present or (vis and not same(v, ov)):
                     return False
             return True
         if kind == 'deque':
-            return st.final_view() == [x[2] for x in obs]
+            view = st.final_view()
+            return len(view) == len(obs) and all(x[0] in ignore_values or v == x[2] for v, x in zip(view, obs))
         if kind == 'index':
-            return st.final_view() == [[x[0], x[2]] for x in obs]
+            view = st.final_view()
+            return len(view) == len(obs) and all(k == x[0] and (k in ignore_values or v == x[2]) for (k, v), x in zip(view, obs))
         return False
     return ok
 
@@ -595,8 +603,11 @@ def check_run(r, programs, setup, kind='cache', stats=None):
                 out.append(('value_never_written', 'client %d %s(%s) returned %r, which nobody wrote for that key' % (rec['client'], rec['op'], k, v)))
     snap = r.get('snapshot')
     if snap is None:
-        with instr.Installed(r['clock']):
-            snap = r['snapshot'] = concdrv.api_snapshot(r['dir'], kind)
+        try:
+            with instr.Installed(r['clock']):
+                snap = r['snapshot'] = concdrv.api_snapshot(r['dir'], kind)
+        except Exception as e:  # noqa
+            return out + [('unusable_after_run', 'the directory cannot be opened/read after all clients finished: %r' % e)]
     acts = actions_of_calls(r['calls'])
     init = make_ref(kind, setup)
     fin = final_matches(kind, snap)
@@ -731,6 +742,10 @@ def corpus():
 D12_SCHEDULE = [0] + [1] * 40 + [0] * 10
 
 
+ITER_WITNESS = ([[{'op': 'set', 'key': 'b', 'value': 2, 'retry': True}, {'op': 'delete', 'key': 'a', 'retry': True}], [{'op': 'iter'}]],
+                [{'op': 'set', 'key': 'a', 'value': 1}], [1] + [0] * 40 + [1] * 5)
+
+
 def direct_check(kind_, r, programs, setup):
     """The property's named corollaries, decided directly from the results."""
     flat = [rec for recs in r['calls'] for rec in recs]
@@ -799,7 +814,7 @@ def one_case(ctx, res, stats, programs, setup, schedule, mode, label, driver='th
     if r['overflow']:
         stats['overflow'] += 1
     viol = check_run(r, programs, setup, 'cache', stats)
-    if expect:
+    if expect and not viol:
         viol += direct_check(expect, r, programs, setup)
     # non-trivial = at least two clients' calls overlap in time
     acts = actions_of_calls(r['calls'])
@@ -817,6 +832,16 @@ def one_case(ctx, res, stats, programs, setup, schedule, mode, label, driver='th
     return viol
 
 
+EXPECTED_SIGS = ('iter_not_atomic',)
+
+
+def enough(res, prop=None, expected=EXPECTED_SIGS):
+    """A failing input has been found: stop exploring (keeps a broken tree from costing the whole budget).
+    Signatures of recorded findings (known_findings.txt) and of the findings this module classifies do not count."""
+    known = fw.load_known(prop or ID)[0]
+    return len([v for v in res.violations if v.sig not in known and v.sig not in expected]) >= 4
+
+
 def run_corpus(ctx, res, stats, per_program, exhaustive_limit):
     for name, programs, setup, expect in corpus():
         seqs = concdrv.solo_events(ctx, programs, settings=SETTINGS, setup=setup)
@@ -831,11 +856,17 @@ def run_corpus(ctx, res, stats, per_program, exhaustive_limit):
             mode = 'own' if k % 3 else 'shared'
             stats['schedules_enumerated'] += 1
             one_case(ctx, res, stats, programs, setup, sc, mode, 'corpus:' + name, expect=expect, record=k < 5)
+            if enough(res):
+                return
     # the D12 schedule must exercise the tolerated anomaly
     name, programs, setup, expect = [c for c in corpus() if c[0] == 'reader_vs_replace_file'][0]
     before = stats['anomalies']
     one_case(ctx, res, stats, programs, setup, D12_SCHEDULE, 'own', 'corpus:D12-schedule', expect=expect)
     stats['d12_schedule_anomaly_seen'] = stats['anomalies'] > before
+    # witness of the torn iteration (finding iter_not_atomic): MAX(rowid) read, then b inserted and a deleted, then the page read
+    programs, setup, schedule = ITER_WITNESS
+    v = one_case(ctx, res, stats, programs, setup, schedule, 'own', 'corpus:iter-witness')
+    res.witnessed['iter_not_atomic'] = any(sig == 'iter_not_atomic' for sig, _ in v)
 
 
 def run_random(ctx, res, stats, npairs, modes, drivers=('thread',)):
@@ -845,7 +876,7 @@ def run_random(ctx, res, stats, npairs, modes, drivers=('thread',)):
         driver = drivers[k % len(drivers)]
         mode = modes[k % len(modes)] if driver == 'thread' else 'own'
         one_case(ctx, res, stats, programs, setup, schedule, mode, 'random:%d' % k, driver=driver)
-        if ctx.deadline and _time.time() > ctx.deadline:
+        if (ctx.deadline and _time.time() > ctx.deadline) or enough(res):
             break
 
 
@@ -874,6 +905,8 @@ def run_enumerated(ctx, res, stats, nprograms, limit):
         for k, sc in enumerate(scheds):
             stats['schedules_enumerated'] += 1
             one_case(ctx, res, stats, programs, setup, sc, 'own' if k % 2 else 'shared', 'enum:%d' % done, record=k < 3)
+            if enough(res):
+                return
         if ctx.deadline and _time.time() > ctx.deadline:
             break
 
@@ -1035,7 +1068,7 @@ def run(ctx, big=False):
         run_corpus(ctx, res, stats, per_program=400, exhaustive_limit=1500)
         run_enumerated(ctx, res, stats, 25 if not ctx.quick else 8, 600 if not ctx.quick else 200)
         run_random(ctx, res, stats, 3000 if not ctx.quick else 800, ['own', 'shared'], drivers=('thread', 'thread', 'process'))
-        if not ctx.quick:
+        if not ctx.quick and not enough(res):
             soak(ctx, res, stats)
     ctx.deadline = None
     res.traces_validated = 0
